@@ -3,35 +3,40 @@
 import sys
 sys.path.insert(0, '/verif')
 
-import sys, time, json
-sys.setrecursionlimit(10000)
+import sys, time
 from cxxheaderparser.simple import parse_string
 from cxxheaderparser.errors import CxxParseError
-from vf.props.c07 import nest_source
 
-def family_times(name, depths=(20, 40, 80, 160), budget=20.0):
-    ts = []
-    for d in depths:
-        s = nest_source(name, d)
-        t = time.perf_counter()
-        try:
-            parse_string(s)
-        except CxxParseError:
-            pass
-        ts.append((d, len(s), time.perf_counter() - t))
-        if ts[-1][2] > budget:
+def measure(prefix, unit, suffix, ks, budget=4.0):
+    out = []
+    for k in ks:
+        s = prefix + unit * k + suffix
+        best = None
+        for _ in range(2):
+            t = time.perf_counter()
+            try:
+                parse_string(s)
+            except CxxParseError:
+                pass
+            dt = time.perf_counter() - t
+            best = dt if best is None else min(best, dt)
+        out.append((k, len(s), best))
+        if best > budget:
             break
-    return ts
+    return out
 
-def superpoly(ts, budget=20.0):
-    # doubling the depth multiplies the time by more than 2^3.5 twice in a row (or the budget is blown)
-    r = [b[2] / a[2] for a, b in zip(ts, ts[1:]) if a[2] > 0.002]
-    run = best = 0
-    for x in r:
-        run = run + 1 if x > 11.3 else 0
-        best = max(best, run)
-    return best >= 2 or ts[-1][2] > budget
+def exponential(times, floor=0.004, ratio=1.8, need=3):
+    """>= `need` consecutive steps (k -> k+2) each multiplying the time by >= ratio, above the noise floor"""
+    run = 0
+    for (k0, _, t0), (k1, _, t1) in zip(times, times[1:]):
+        if t0 >= floor and t1 / t0 >= ratio:
+            run += 1
+            if run >= need:
+                return True
+        else:
+            run = 0
+    return False
 
-ts = family_times('template args fnptr suffix')
-for x in ts: print(x)
-sys.exit(1 if superpoly(ts) else 0)
+ts = measure('/*', '\n', '', [10, 12, 14, 16, 18, 20, 22, 24, 26, 28, 30, 32, 34, 36, 38, 40])
+for k, n, t in ts: print(k, n, round(t, 4))
+sys.exit(1 if exponential(ts) else 0)
